@@ -126,15 +126,20 @@ def variants(hc, quick, idx):
 
 
 def dft_tasks(cases, quick, seed, impls):
+    """quick: precisions alternate over (case, variant) and the inverse is taken as (.inverse, out-of-place) and
+    (constructor, in-place); thorough: both precisions and all four inverse combinations."""
     tasks = []
     for ci, case in enumerate(cases):
-        for field, hcflag in variants(case['hc'], quick, ci):
+        for vi, (field, hcflag) in enumerate(variants(case['hc'], quick, ci)):
             first = True
-            for prec in (64, 32):
+            precs = (64, 32) if not quick else ((64,) if (ci + vi + seed) % 2 == 0 else (32,))
+            for prec in precs:
                 for impl in impls:
                     tasks.append({'type': 'dft', 'case': case,
                                   'conc': {'field': field, 'hcflag': hcflag, 'prec': prec, 'impl': impl,
-                                           'numpy_ref': first}})
+                                           'numpy_ref': first,
+                                           'inv': [['prop', 'oop'], ['ctor', 'ip']] if quick else
+                                           [['prop', 'oop'], ['prop', 'ip'], ['ctor', 'oop'], ['ctor', 'ip']]}})
                     first = False
     return tasks
 
@@ -145,7 +150,7 @@ def ft_tasks(cases, quick, seed, impls):
         nd = len(case['shape'])
         strides = [STRIDES[(seed + ci + 2 * a) % len(STRIDES)] for a in range(nd)]
         for vi, (field, hcflag) in enumerate(variants(case['hc'], quick, ci)):
-            precs = (64, 32) if not quick else ((64,) if (ci + vi) % 2 == 0 else (32,))
+            precs = (64, 32) if not quick else ((64,) if (ci + vi + seed) % 2 == 0 else (32,))
             for prec in precs:
                 for impl in impls:
                     tasks.append({'type': 'ft', 'case': case,
@@ -189,12 +194,12 @@ def driver_cases(quick, seed):
 
 def hist_concs(quick, impls):
     concs = []
-    shapes = [(5,), (3, 4)] if quick else [(5,), (4,), (3, 4), (4, 3), (2, 3, 4)]
+    shapes = [(5,), (3, 4)] if quick else [(5,), (3, 4), (2, 3, 4)]
     for kind in ('dft', 'ft'):
         for impl in impls:
             for field, hcflag in (('C', False), ('R', True), ('R', False)):
                 for shape in shapes:
-                    for prec in ((64,) if quick else (64, 32)):
+                    for prec in ((64,) if quick or len(shape) != 2 else (64, 32)):
                         for inv_mode in (('fresh',) if quick else ('fresh', 'cached')):
                             concs.append({'kind': kind, 'impl': impl, 'field': field, 'hcflag': hcflag,
                                           'shape': list(shape), 'prec': prec, 'inv_mode': inv_mode})
@@ -226,9 +231,12 @@ def batch_worker(batch):
 
 # ------------------------------------------------------------------ the check
 def run(ctx):
+    import time
     quick = ctx.tier == 'quick'
     work = ctx.work
     seed = ctx.seed
+    t0 = time.time()
+    timing = ctx.extra.setdefault('timing_s', {})
     ctx.rule = ('abstract case = transform configuration (kind, shape, axes, sign, effective half-complex flag, '
                 'per-axis shift, first node / stride) exported by TLC or enumerated beyond its constants, call '
                 'history of length <= 3(4), wavelet layout (shape, axes, filter length, mode class, levels), wavelet '
@@ -363,7 +371,8 @@ def run(ctx):
     tasks += ft_tasks(ft_cases, quick, seed, impls)
     if U.HAVE_PYWT:
         need('export-wavelayout')
-        wl_cases = lines(f_wl)
+        wl_cases = sorted((c for grp in lines(f_wl) for c in grp),
+                          key=lambda c: (c['shape'], c['axes'], c['flen'], c['mode'], c['L']))
         pool_names = [w for w in allw if w not in notpr]
         for ci, case in enumerate(wl_cases):
             ws = wavelets_with_len(case['flen'], pool_names)
@@ -377,6 +386,7 @@ def run(ctx):
                 tasks.append({'type': 'wave_lay', 'case': case, 'wavelet': w, 'mode': mode, 'seed': seed})
     for i, t in enumerate(tasks):
         t['tid'] = i
+    timing['exports_and_tasks'] = round(time.time() - t0, 1)
 
     # ---- 3. run on real ODL objects (processes) ------------------------------------------------------
     import multiprocessing as mp
@@ -391,6 +401,7 @@ def run(ctx):
     batches = [b for b in batches if b]
     with mp.get_context('fork').Pool(nproc) as pool:
         results = pool.map(batch_worker, batches, chunksize=1)
+    timing['replay_pool'] = round(time.time() - t0, 1)
     by_tid, bodies = {}, {}
     for recs, bd in results:
         bodies.update(bd)
@@ -402,6 +413,7 @@ def run(ctx):
     events = {}            # key -> [event, [(tid, where, extras, conc), ...]]
     unsupported = defaultdict(int)
     replay_mismatch = {}   # event key -> True (exported expectation differs from the observation)
+    sample_cand = []
     nrep = 0
     for t in tasks:
         for o in by_tid[t['tid']]:
@@ -427,11 +439,9 @@ def run(ctx):
                 got = ev.get('obs') if ev['k'] == 'tab' else (ev.get('post') if ev['k'] == 'hist' else ev.get('blocks'))
                 if ev.get('err') or got != o['expected']:
                     replay_mismatch[key] = True
-            if len(ctx.samples) < 5 and ev['k'] in ('tab', 'conv', 'lay') and not ev.get('err') and \
-                    (t['tid'] * 7 + len(ctx.samples)) % 611 == 0:
-                ctx.sample({'task': {k: v for k, v in t.items() if k not in ('case', 'behaviours')},
-                            'event': {k: (v if k != 'obs' or len(str(v)) < 300 else str(v)[:300] + '...')
-                                      for k, v in ev.items()}})
+            if len(sample_cand) < 400 and ev['k'] in ('tab', 'conv', 'lay', 'adj', 'mag') and not ev.get('err') and \
+                    t['tid'] % 97 == 0 and key not in {c[0] for c in sample_cand}:
+                sample_cand.append((key, {k: v for k, v in t.items() if k not in ('case', 'behaviours')}))
     ctx.traces += nrep
     keys = sorted(events)
     for i, k in enumerate(keys):
@@ -457,6 +467,8 @@ def run(ctx):
                 f.write(json.dumps(events[k][0]) + '\n')
         files.append(p)
 
+    timing['events_written'] = round(time.time() - t0, 1)
+
     def val(p):
         return p, run_tlc('Trace_FT.tla', 'Trace_FT.cfg', work, env={'TRACE_FILE': p}, workers=1, timeout=2400,
                           heap='2g')
@@ -468,6 +480,7 @@ def run(ctx):
         for line, eid, clauses in parse_fails(res.output):
             rejected[keys[eid]] = clauses
     ctx.traces += len(keys)
+    timing['trace_validated'] = round(time.time() - t0, 1)
     # remaining model runs
     for name in ('laws-dft', 'laws-ft', 'recipgrid-impl', 'laws-wavelayout'):
         need(name)
@@ -485,6 +498,28 @@ def run(ctx):
         names = set(re.findall(r'<<\s*"([\w-]+)"', cl))
         if names & set(harness_clauses):
             raise MachineryError('harness-side clause rejected: %s %s' % (cl, dumps(events[k][0])[:300]))
+
+    kinds_seen = set()
+    for key, tinfo in sample_cand:          # literal cases that the specification accepted, one per event kind
+        ev = events[key][0]
+        kk = (ev['k'], ev.get('t'), tinfo.get('type'))
+        if key in rejected or kk in kinds_seen or len(json.dumps(ev)) > 1500:
+            continue
+        kinds_seen.add(kk)
+        ctx.sample({'task': tinfo, 'event': ev})
+
+    # layer C mirrors the current tree: note a drift if the modelled range-shape rule is not what the code does
+    try:
+        import odl
+        probe = odl.trafos.DiscreteFourierTransform(odl.uniform_discr(0, 1, 4, dtype='complex128'),
+                                                     halfcomplex=True, impl='numpy')
+        code_fixed = probe.range.shape == (4,)
+        if code_fixed != (HCFIX == '1'):
+            ctx.drift_note('RecipGridImpl!RanShapeImpl models Fixed=%s but the code %s the raw halfcomplex flag for '
+                           'the range shape: set HCFIX in harness/checks/c18.py accordingly'
+                           % (HCFIX == '1', 'no longer uses' if code_fixed else 'uses'))
+    except Exception as e:
+        ctx.drift_note('range-shape probe failed: %s' % type(e).__name__)
 
     # ---- 6. verdicts ---------------------------------------------------------------------------------
     task_by_tid = {t['tid']: t for t in tasks}
@@ -554,7 +589,8 @@ def random_history(rnd, conc, length):
             heap['y'] = F[heap[a['x']]]
         elif a['op'] == 'invip':
             heap['z'] = I[heap[a['x']]]
-        steps.append({'act': a})       # no expected heap: judged by TLC only
+        steps.append({'act': a, 'mirror': dict(heap)})   # no exported heap: judged by TLC only; the mirror only
+        #                                                  tells the driver when the real objects left the plan
     return {'steps': steps}
 
 
